@@ -190,7 +190,8 @@ theorem writeAndCache_iff {d : Nat} (ihB : ValIH cx d) (ihA : SpecIH cx d) {rb :
     {s s' : S F} :
     M.eff (writeAndCache cx (execRec cx d) rb buf) s = (.ok (), s') ↔
       regWriteBytes cx (valSem cx d) rb buf s = some s' := by
-  simp only [writeAndCache, regWriteBytes, M.eff_bind_ok_iff, M.eff_ofR, Option.bind_eq_some_iff, imageWrite_eq]
+  simp only [writeAndCache, regWriteBytes, M.eff_bind_ok_iff, M.eff_ofR, Option.bind_eq_some_iff, imageWrite_eq,
+    effectiveAddrs_eq]
   constructor
   · rintro ⟨l, s1, h1, h2⟩
     simp only [Prod.mk.injEq] at h1
